@@ -179,11 +179,15 @@ fn run_point(ctx: &WorkerCtx, rep: &mut WorkerReport, c: &Case, k: i64, fresh: &
     let lo = (c.m - 10).max(0);
     let hi = c.hc.min(c.cap);
     let mut targets: Vec<i64> = (lo..=hi).collect();
-    if !ctx.thorough() && targets.len() > 3 {
+    let max_targets = if ctx.thorough() { 5 } else { 3 };
+    if targets.len() > max_targets {
         rng.shuffle(&mut targets);
-        targets.truncate(3);
+        targets.truncate(max_targets);
         if !targets.contains(&hi) {
             targets[0] = hi;
+        }
+        if ctx.thorough() && !targets.contains(&lo) {
+            targets[1] = lo;
         }
     }
     for n in targets {
@@ -342,7 +346,7 @@ fn one_victim(ctx: &WorkerCtx, rep: &mut WorkerReport, case_seed: u64, kind: &st
         return;
     }
     if ctx.thorough() {
-        let stride = (total / 160).max(1);
+        let stride = (total / 70).max(1);
         points.extend((0..total).step_by(stride as usize));
     } else {
         // random points, each with its successor: the two writes of one key (history row, latest row)
@@ -391,7 +395,7 @@ pub fn worker(ctx: &WorkerCtx) -> WorkerReport {
     let mut rep = WorkerReport::default();
     let mut rng = ctx.rng();
     let kinds = ["commit", "reorg", "commit", "finalise", "commit", "reorg", "between-calls"];
-    let n = if ctx.thorough() { 3 } else { 1 };
+    let n = if ctx.thorough() { 2 } else { 1 };
     for j in 0..n {
         let kind = kinds[((ctx.shard + j * 3) % kinds.len() as u64) as usize];
         let cs = rng.next();
